@@ -48,6 +48,7 @@ type Result struct {
 	Inconclusive       []string         `json:"inconclusive"`
 	WallS              float64          `json:"wall_s"`
 	Exhaustive         bool             `json:"exhaustive"`
+	Partial            bool             `json:"partial,omitempty"` // written at a violation, before the run finished
 	Signatures         int              `json:"distinct_signatures,omitempty"`
 }
 
@@ -243,6 +244,32 @@ func (r *Run) Violation(caseIdx int, fingerprint, what string, witness any) {
 		_ = os.WriteFile(path, b, 0o644)
 	}
 	r.res.Violations = append(r.res.Violations, Violation{Fingerprint: fingerprint, What: what, Replay: path, Case: caseIdx})
+	// Persist what is known so far: if the process later hangs or dies (a hostile input can do that to
+	// the code under test), the driver still sees the violations recorded up to here.
+	r.writePartialLocked()
+}
+
+func (r *Run) writePartialLocked() {
+	if r.out == "" || r.finished {
+		return
+	}
+	snap := r.res
+	snap.Verdict = "violated"
+	snap.Partial = true
+	snap.DistinctNontrivial = len(r.distinct)
+	snap.Signatures = len(r.sigs)
+	snap.WallS = time.Since(r.start).Seconds()
+	if snap.Samples == nil {
+		snap.Samples = []any{}
+	}
+	b, err := json.Marshal(&snap)
+	if err != nil {
+		return
+	}
+	tmp := r.out + ".tmp"
+	if err := os.WriteFile(tmp, b, 0o644); err == nil {
+		_ = os.Rename(tmp, r.out)
+	}
 }
 
 // Guard runs f and turns a panic into a violation with fingerprint "panic:<prefix>" and the stack as witness.
